@@ -66,6 +66,38 @@ Theorem C05_balanced_listener_never_vetoes :
 Proof. intros tmin snap cl ds. apply (scan_bal_eph_indep tmin snap cl ds [] []). exact I. Qed.
 Print Assumptions C05_balanced_listener_never_vetoes.
 
+(* the verdict is the verdict on the synchronized clients alone: with every '?' listener struck from the table the scan decides
+   the same - a listener that is slow, silent, about to time out or not there at all makes no difference *)
+From OF Require Import Proto.Sender_Listener.
+Theorem C05_verdict_ignores_listeners :
+  forall tmin snap cl cl2 ds,
+    snd (fst (scan false tmin (filter is_sync snap) cl2 ds [])) = snd (fst (scan false tmin snap cl ds [])).
+Proof. intros. apply scan_without_listeners. Qed.
+Print Assumptions C05_verdict_ignores_listeners.
+
+(* a listener that leaves (CLOSE from a client that is not a required output) leaves the decision taken so far as it was: the
+   frame the synchronized consumers have asked for still goes out; nobody else is touched *)
+Theorem C05_listener_leaving_keeps_decision :
+  forall s f o q, q_mid q = MSG_ID_CLOSE -> ~ In (q_cid q) (s_required s) ->
+    let '(s1, f1, out, r) := on_request s f o q in
+    sf_do_send f1 = sf_do_send f /\ min_send_id s1 = min_send_id s /\ out = [] /\ r = PrTrue /\
+    clients s1 = del_client (q_cid q) (q_uid q) (clients s).
+Proof. exact close_of_non_required_keeps_decision. Qed.
+Print Assumptions C05_listener_leaving_keeps_decision.
+
+(* ... concretely: the synchronized client asks, the listener says CLOSE, the inbox runs empty - the frame goes out *)
+Example C05_listener_leaving_example :
+  pubs (snd (srun (init_sender 1 false [])
+    [SCall None false (Some [([109], 1)]) None false 0;
+     SPoll (Some (0%nat, {| q_cid := 1; q_uid := 0; q_mid := -1; q_eph := 0; q_new := false; q_pay := None |})) 0;
+     SPoll (Some (0%nat, {| q_cid := 2; q_uid := 1; q_mid := -1; q_eph := 1; q_new := false; q_pay := None |})) 0;
+     SPoll None 0;
+     SCall None false (Some [([109], 2)]) None false 0;
+     SPoll (Some (0%nat, {| q_cid := 1; q_uid := 0; q_mid := 0; q_eph := 0; q_new := false; q_pay := None |})) 0;
+     SPoll (Some (0%nat, {| q_cid := 2; q_uid := 1; q_mid := -3; q_eph := 0; q_new := false; q_pay := None |})) 0;
+     SPoll None 0])) = [0; 1].
+Proof. vm_compute. reflexivity. Qed.
+
 (* Non-vacuity: one synchronized and one ephemeral client; only the synchronized one has asked for the
    next frame, the ephemeral one stays silent: the publish goes out. *)
 Theorem C05_nonvacuous :
